@@ -76,6 +76,13 @@ def subset (a b : List String) : Bool := a.all (fun x => b.contains x)
 
 /-! ### predict purity, derived from the lifted lists -/
 
+/-- calls on attribute objects during prediction that are NOT followed by the lifter and are trusted not to alter the
+    estimator: the prediction methods of the wrapped (cloned) base estimators (`predictors_`, `_hs` = the callables
+    `ExponentiatedGradient` stored per iteration), `FloatTransformer.inverse_transform` and the predictor function chosen at
+    set-up time (a threshold / argmax / identity function) -/
+def trustedPredictObjectCalls : List String :=
+  ["predictors_.predict", "predictors_.predict_proba", "_hs()", "_y_transform.inverse_transform", "predictor_function_()"]
+
 /-- the mode flag of the modules of helper class `h` is scratch state (see the file header) -/
 def modeOk (h : HelperCls) : Bool :=
   (helperPredictModeCalls h).all (fun m => m.2 == "eval") &&
@@ -99,7 +106,7 @@ def helperCallsResolved (c : EstCls) : Bool :=
 /-- THE predict-purity flag of class `c` -/
 def predictPureSrc (c : EstCls) : Bool :=
   (predictAssigned c).isEmpty && subset (predictSelfEscapes c) trustedPredictCallees &&
-  helperCallsResolved c && (helpersOf c).all helperPure
+  subset (predictOtherCalls c) trustedPredictObjectCalls && helperCallsResolved c && (helpersOf c).all helperPure
 
 /-- run the `predict` step of `M` through a purity flag: flag off = the state after a prediction is `taint`ed -/
 def guardPredict {σ : Type} (pure : Bool) (taint : σ → σ) (M : Machine σ) : Machine σ :=
